@@ -602,7 +602,13 @@ Definition run_own (args : list (list byte)) : list byte :=
 
 (* HASHI name n member...: the same members enumerated in two orders: equality of the sets and of the hash token streams *)
 Definition r_member : reader (list byte * N) :=
-  fun ts => match ts with k :: r => option_map (fun '(v, r') => ((k, v), r')) (r_N r) | [] => None end.
+  fun ts => match ts with
+            | k :: r =>
+              if tok_eqb k "A" then
+                (* an attribute: it takes no part in the hash; read and drop it *)
+                match r_attr r with Some (_, r') => Some ((k, 0), r') | None => None end
+              else option_map (fun '(v, r') => ((k, v), r')) (r_N r)
+            | [] => None end.
 Fixpoint nlist_eq (a b : list N) : bool :=
   match a, b with [], [] => true | x :: a', y :: b' => (x =? y) && nlist_eq a' b' | _, _ => false end.
 Definition run_hashi (args : list (list byte)) : list byte :=
@@ -617,6 +623,27 @@ Definition run_hashi (args : list (list byte)) : list byte :=
       unwords [bool_tok true; bool_tok (nlist_eq a1 a2 && nlist_eq p1 p2)]
     | _ => s2b "BADCASE" end
   | None => s2b "BADCASE"
+  end.
+
+(* EQHASH N a b | EQHASH R rr rr: equality and equality of the hasher input of two independently built values *)
+Definition run_eqhash (args : list (list byte)) : list byte :=
+  match args with
+  | k :: rest =>
+    if tok_eqb k "N" then
+      match r_name rest with
+      | Some (a, t1) => match r_name t1 with
+                        | Some (b, []) => unwords [bool_tok (labels_eqb a b); bool_tok (labels_eqb a b)]
+                        | _ => s2b "BADCASE" end
+      | None => s2b "BADCASE" end
+    else if tok_eqb k "R" then
+      match r_rr rest with
+      | Some (a, t1) => match r_rr t1 with
+                        | Some (b, []) => unwords [bool_tok (rr_eqb a b); bool_tok (rr_eqb a b);
+                                                   bool_tok (rdata_eqb (rdata_of a) (rdata_of b)); bool_tok (rdata_eqb (rdata_of a) (rdata_of b))]
+                        | _ => s2b "BADCASE" end
+      | None => s2b "BADCASE" end
+    else s2b "BADCASE"
+  | [] => s2b "BADCASE"
   end.
 
 Definition run_line (line : list byte) : list byte :=
@@ -639,6 +666,7 @@ Definition run_line (line : list byte) : list byte :=
     else if tok_eqb cmd "OBSERVE" then run_observe args
     else if tok_eqb cmd "OWN" then run_own args
     else if tok_eqb cmd "HASHI" then run_hashi args
+    else if tok_eqb cmd "EQHASH" then run_eqhash args
     else if tok_eqb cmd "DISC" then run_disc args
     else if tok_eqb cmd "HISTB" then run_histb args
     else if tok_eqb cmd "SUFFIX" then run_suffix args
